@@ -44,17 +44,18 @@ func (t *brokerPublishQOS2Transaction) Publish(publish *pkts1.Publish) error {
 }
 
 func (t *brokerPublishQOS2Transaction) Pubrel(pubrel *pkts1.Pubrel) error {
+	// The PUBREL must be acknowledged (and the transaction finished) even if
+	// the message cannot be delivered to a handler.
 	pubcomp := pkts1.NewPubcomp()
 	pubcomp.CopyMessageID(pubrel)
+	if err := t.client.send(pubcomp); err != nil {
+		return err
+	}
+	t.Success()
 	topic, err := t.client.topicForPublish(t.publish)
 	if err != nil {
 		return err
 	}
 	t.client.messageHandlers.handle(t.client, topic, t.publish)
-	err = t.client.send(pubcomp)
-	if err != nil {
-		return err
-	}
-	t.Success()
 	return nil
 }
